@@ -324,7 +324,7 @@ def _gen_conv(rng):
 
 def generate(rng, tier):
     import yaml
-    n = 130 if tier == "quick" else 3000
+    n = 200 if tier == "quick" else 4000
     cases = []
     for i in range(n):
         doc = _gen_doc(rng)
@@ -1081,7 +1081,24 @@ def describe(case, out):
     return f"chart origin={case['origin']} recipe={case['recipe']}\nviolations: {sorted(rs) if rs else rs}"
 
 
+def _unknown(case):
+    try:
+        rs = reasons(case, execute(case))
+    except Exception:
+        return set()
+    return {r for r in (rs or ()) if r not in KNOWN_ORDER}
+
+
 def shrink(case):
+    """candidates that still show a violation which is NOT a known finding (so that shrinking cannot slide from a new
+    violation into a known one); when the case has no such violation (pure correspondence failure) every candidate"""
+    keep = bool(_unknown(case))
+    for c in _shrink_all(case):
+        if not keep or _unknown(c):
+            yield c
+
+
+def _shrink_all(case):
     import yaml
     if case["kind"] == "doc":
         try:
